@@ -336,10 +336,16 @@ def decode_export(exp, arch) -> Dict[str, Any]:
             rec["k"], rec["dil"], rec["stride"] = 1, 1, 1
         pad = None
         try:
-            p = exp.get_submodule("layers." + lname(i) + "_pad")
+            # the explicit pad module of the architecture (named so that it cannot collide with the "<layer>_pad" module
+            # that export() itself adds in front of an un-padded convolution)
+            p = exp.get_submodule("layers." + lname(i) + "_xpad")
             pad = [int(v) for v in p.padding]
         except AttributeError:
-            pass
+            try:
+                p = exp.get_submodule("layers." + lname(i) + "_pad")
+                pad = [int(v) for v in p.padding]
+            except AttributeError:
+                pass
         rec["pad"] = pad if pad is not None else []
         out[str(i)] = rec
     return out
